@@ -153,6 +153,9 @@ type recorder struct {
 	xpRejects map[string]int64
 	// every Commit a node broadcast: node -> height -> the distinct (view, signature) pairs
 	sentCommits map[int]map[uint32][]sentCommit
+	// ChangeView / RecoveryRequest payloads a node broadcast for a height it
+	// had already broadcast a Commit for
+	afterCommit []afterCommitRec
 	// payloads a node's timer makes it send (proposal, change view, recovery
 	// request / message): the logical clock of the post-fault progress verdict
 	timerSent map[int]int64
@@ -163,6 +166,16 @@ type recorder struct {
 	ledgerAhead     int64
 	lastAheadHeight map[int]uint32 // node -> the height dBFT was initialised for by such an event
 	commitsAfterBurstInit int64
+}
+
+type afterCommitRec struct {
+	Node       int    `json:"node"`
+	Height     uint32 `json:"height"`
+	Type       string `json:"payload_type"`
+	View       byte   `json:"view"`
+	CommitView byte   `json:"view_of_its_commit"`
+	Seq        int64  `json:"seq"`
+	CommitSeq  int64  `json:"seq_of_its_commit"`
 }
 
 type sentCommit struct {
@@ -648,7 +661,12 @@ func (cl *cluster) observePayload(from int, raw []byte) (string, int, uint32) {
 		if p.ViewNumber() > 0 {
 			rec.msgTypes["RecoveryMessage:view>=1"]++
 		}
-	case "PrepareRequest", "ChangeView", "RecoveryRequest":
+	case "ChangeView", "RecoveryRequest":
+		rec.timerSent[from]++
+		if cs := rec.sentCommits[from][p.Height()]; len(cs) > 0 && len(rec.afterCommit) < 200 {
+			rec.afterCommit = append(rec.afterCommit, afterCommitRec{from, p.Height(), p.Type().String(), p.ViewNumber(), cs[0].View, rec.nextSeq(), cs[0].Seq})
+		}
+	case "PrepareRequest":
 		rec.timerSent[from]++
 	}
 	if p.Type().String() == "PrepareRequest" && len(rec.preps) >= maxPreps {
